@@ -322,7 +322,7 @@ def monitor(tr, case):
                 sc = max(1e-9, float(np.abs(want).max()))
                 d = np.abs(val - want) - 3e-4 * np.abs(want)
                 npin += 1
-                if d.max() > 1e-6 * sc + 1e-9:
+                if d.max() > 1e-6 * sc + 2e-6:  # (2e-6 billion kcal absolute: the solver's own feasibility tolerance on a row of this model)
                     m = int(d.argmax())
                     add([("pinned_consumption_differs_from_handed_minimum", "feed-maximising round, %s month %d: people are held to %.8g billion kcal, the handed minimum is %.8g" % (f, m, val[m], want[m]))], "min_needs_in_model")
             obs["audited"] += 1
